@@ -35,6 +35,7 @@ type nameState struct {
 
 type machine struct {
 	t     *rapid.T
+	other container.SingletonComponentRegistry
 	reg   container.SingletonComponentRegistry
 	st    map[string]*nameState
 	stack []string
@@ -197,7 +198,31 @@ func (m *machine) create(n string, depth int) (*component_definition.Meta, error
 		}
 		steps := rapid.IntRange(0, 4).Draw(m.t, "steps")
 		for i := 0; i < steps; i++ {
-			switch rapid.SampledFrom([]int{0, 0, 1, 1, 2, 2, 3, 3, 4}).Draw(m.t, "act") {
+			switch rapid.SampledFrom([]int{0, 0, 1, 1, 2, 2, 3, 3, 4, 5}).Draw(m.t, "act") {
+			case 5:
+				// ANOTHER registry (another container of the process, built from the same component types, so the names
+				// are the same) runs a complete creation of this very name meanwhile: registries share nothing
+				if m.other == nil {
+					m.other = support.DefaultSingletonComponentRegistry()
+				}
+				foreign := newMeta(n + "#foreign")
+				got, err := m.other.GetSingletonOrCreateByFactory(n, container.FuncSingletonFactory(func() (*component_definition.Meta, error) {
+					if !m.other.IsSingletonCurrentlyInCreation(n) {
+						m.fail("the other registry does not report %q as in creation inside its own factory", n)
+					}
+					return foreign, nil
+				}))
+				m.log("other registry: create(%s) -> %p err=%v", n, got, err)
+				if err != nil || got == nil {
+					m.fail("creation of %q in the other registry failed: %v", n, err)
+				}
+				if !m.reg.IsSingletonCurrentlyInCreation(n) {
+					m.fail("%q is in creation here; a completed creation of the same name in ANOTHER registry removed the mark", n)
+				}
+				if m.other.IsSingletonCurrentlyInCreation(n) {
+					m.fail("the other registry still reports %q as in creation after it completed (marks shared between registries?)", n)
+				}
+				m.flags["other-registry-same-name"] = true
 			case 4:
 				// A lookup of the SAME name issued before the instance is exposed (e.g. from a before-instantiation
 				// callback) runs a complete nested creation, which publishes. The enclosing attempt cannot complete
